@@ -29,6 +29,81 @@ type vdrReloc struct {
 	LinkRel string // the sub-pipeline directory, relative to the pipestance directory
 	Target  string // where its content lives now
 	watched []string
+	// the tree below the link (names as below the pipestance directory) right
+	// after the restart and right after the final VDRKill
+	treeAtRestart, treeAtKill map[string]vdrEnt
+}
+
+// relocTree lists what lies below the relocated directory, named as mrp names it.
+func (v *vdrRun) relocTree() map[string]vdrEnt {
+	out := map[string]vdrEnt{}
+	for rel, e := range lstatTree(v.reloc.Target) {
+		out[v.reloc.LinkRel+"/"+rel] = e
+	}
+	return out
+}
+
+// relocReplay: the forks below the relocated directory in the model.  VDR
+// refuses them (Node.vdrCheckSymlink), which the model expresses by a history
+// without temp cleaning and kill passes (refused_fork_untouched): from the
+// real bookkeeping and the entries found after the restart, with all that
+// happened to the consumers, nothing is removed and nothing reported.
+func (v *vdrRun) relocReplay() {
+	if v.reloc == nil || v.reloc.treeAtRestart == nil || v.reloc.treeAtKill == nil || v.postKill == nil {
+		return
+	}
+	var done []string
+	for n, st := range v.postKill.Nodes {
+		if st == "complete" || st == "disabled" {
+			done = append(done, n)
+		}
+	}
+	sort.Strings(done)
+	for i := range v.postKill.RelocForks {
+		f := &v.postKill.RelocForks[i]
+		if f.Kind != "stage" {
+			continue
+		}
+		dir := v.rel(f.Path)
+		hadReport := false
+		for _, n := range []string{"_vdrkill", "_vdrkill.partial"} {
+			if _, ok := v.reloc.treeAtRestart[dir+"/"+n]; ok {
+				hadReport = true
+			}
+		}
+		if hadReport {
+			v.hist("reloc-replay-skipped-reported-before-relocation")
+			continue
+		}
+		init, ok := v.initView[f.Node]
+		if !ok {
+			continue
+		}
+		disk := v.forkDisk(f, v.reloc.treeAtRestart, false)
+		if disk == "." {
+			continue
+		}
+		evs := []string{"e", "c"}
+		for _, d := range done {
+			evs = append(evs, "d"+hx(d))
+		}
+		var rep *vdrReport
+		for _, n := range []string{"_vdrkill", "_vdrkill.partial"} {
+			if b, err := os.ReadFile(path.Join(v.psdir, dir, n)); err == nil {
+				rep, _ = parseVdrReport(n, b)
+			}
+		}
+		var paths []string
+		if rep != nil {
+			paths = rep.Paths
+		}
+		req := []string{"C04.run", vdrFlags(f), ".", ".", vdrHexAssoc(init.FileArgs, true), vdrHexAssoc(init.FilePostNodes, false),
+			"none", disk, ".", "0|0", ".", strings.Join(evs, ",")}
+		v.res.Checks = append(v.res.Checks, VdrModelCheck{Name: "refused_fork_replay", Req: req, DiskOnly: true,
+			Expect: v.expectState(f, v.goneUnder(f, v.reloc.treeAtRestart, v.reloc.treeAtKill), rep, paths),
+			What:   "fork " + f.Fqname + " lies below a relocated (linked) pipeline directory: VDR must refuse it — nothing of what was there after the restart removed, nothing reported, not final"})
+		v.hist("refused-fork-replayed")
+	}
 }
 
 func (v *vdrRun) underReloc(rel string) bool {
@@ -120,6 +195,7 @@ func (v *vdrRun) crashRelocateRestart() error {
 	}
 	if v.reloc != nil {
 		v.watchRelocated()
+		v.reloc.treeAtRestart = v.relocTree()
 	}
 	return nil
 }
